@@ -12,6 +12,7 @@ import (
 	gl "github.com/wormhole-foundation/example-near-light-client/goldilocks"
 	"github.com/wormhole-foundation/example-near-light-client/types"
 	"github.com/wormhole-foundation/example-near-light-client/variables"
+	"github.com/wormhole-foundation/example-near-light-client/verifier"
 	"strings"
 
 	"verifharness/data"
@@ -196,7 +197,7 @@ func c13(raw json.RawMessage, resp *drv.Response) error {
 	case "fold":
 		for fi, f := range ft.Fold {
 			n := 1 << uint(f.ArityBits)
-			for rep := 0; rep < 3+req.NRandom; rep++ {
+			for rep := 0; rep < 5+req.NRandom; rep++ {
 				if !mine(fi*100 + rep) {
 					continue
 				}
@@ -226,6 +227,16 @@ func c13(raw json.RawMessage, resp *drv.Response) error {
 					beta = gf.E{gf.Mul(start, gf.ExpU(g, uint64(rng.Intn(n)))), big.NewInt(0)}
 				case 2:
 					beta = gf.E0()
+				case 3: // real limb on the coset, non-zero second limb: NOT a coset point
+					g := gf.PrimitiveRoot(uint(f.ArityBits))
+					rev := 0
+					for t := 0; t < f.ArityBits; t++ {
+						rev |= ((f.Idx >> uint(t)) & 1) << uint(f.ArityBits-1-t)
+					}
+					start := gf.Mul(x, gf.ExpU(gf.Inv(g), uint64(rev)))
+					beta = gf.E{gf.Mul(start, gf.ExpU(g, uint64(rng.Intn(n)))), big.NewInt(int64(1 + rng.Intn(1000)))}
+				case 4: // zero real limb, non-zero second limb
+					beta = gf.E{big.NewInt(0), drv.RandBelow(rng, bigP)}
 				}
 				env["beta"] = beta
 				in := []*big.Int{x, beta[0], beta[1]}
@@ -292,8 +303,97 @@ func c13(raw json.RawMessage, resp *drv.Response) error {
 				}
 			}
 		}
+	case "round":
+		return c13Round(req, resp, rng)
 	default:
 		return fmt.Errorf("unknown part %q", req.Part)
+	}
+	return nil
+}
+
+// c13Round: one query round of a real proof through the export wrapper, with the honest Fiat-Shamir challenges and a
+// COMPONENT-level change that no other check of the round can notice: the reduced openings, a fold challenge, or a
+// final-polynomial coefficient moved by delta in ONE limb.  delta = 0 must be accepted, every other case rejected.
+type roundCircuit struct {
+	PWPI variables.ProofWithPublicInputs
+	VD   variables.VerifierOnlyCircuitData
+	L    *data.Loaded   `gnark:"-"`
+	Cfg  *engine.Config `gnark:"-"`
+	What string         `gnark:"-"`
+	Limb int            `gnark:"-"`
+	D    int64          `gnark:"-"`
+	R    int            `gnark:"-"`
+}
+
+func (c *roundCircuit) Define(api frontend.API) error {
+	p := engine.Wrap(api, c.Cfg)
+	cd := c.L.Common
+	vc := verifier.NewVerifierChip(p, cd)
+	glc := gl.New(p)
+	pih := vc.GetPublicInputsHash(c.PWPI.PublicInputs)
+	ch := vc.GetChallenges(c.PWPI.Proof, pih, c.VD)
+	fc := fri.NewChip(p, &cd, &cd.FriParams)
+	inst := fc.GetInstance(ch.PlonkZeta)
+	op := fc.ToOpenings(c.PWPI.Proof.Openings)
+	pre := fc.VerifFromOpeningsAndAlpha(&op, ch.FriChallenges.FriAlpha)
+	bump := func(e gl.QuadraticExtensionVariable) gl.QuadraticExtensionVariable {
+		d := gl.NewVariable(big.NewInt(c.D))
+		if c.Limb == 0 {
+			return gl.QuadraticExtensionVariable{glc.Add(e[0], d), e[1]}
+		}
+		return gl.QuadraticExtensionVariable{e[0], glc.Add(e[1], d)}
+	}
+	proof := c.PWPI.Proof.OpeningProof
+	switch c.What {
+	case "reduced0":
+		pre[0] = bump(pre[0])
+	case "reduced1":
+		pre[1] = bump(pre[1])
+	case "beta0":
+		ch.FriChallenges.FriBetas[0] = bump(ch.FriChallenges.FriBetas[0])
+	case "betalast":
+		k := len(ch.FriChallenges.FriBetas) - 1
+		ch.FriChallenges.FriBetas[k] = bump(ch.FriChallenges.FriBetas[k])
+	case "final0":
+		cs := append([]gl.QuadraticExtensionVariable{}, proof.FinalPoly.Coeffs...)
+		cs[0] = bump(cs[0])
+		proof.FinalPoly.Coeffs = cs
+	case "alpha":
+		ch.FriChallenges.FriAlpha = bump(ch.FriChallenges.FriAlpha)
+	}
+	caps := []variables.FriMerkleCap{c.VD.ConstantSigmasCap, c.PWPI.Proof.WiresCap, c.PWPI.Proof.PlonkZsPartialProductsCap, c.PWPI.Proof.QuotientPolysCap}
+	nLog := cd.FriParams.DegreeBits + cd.FriParams.Config.RateBits
+	fc.VerifVerifyQueryRound(inst, &ch.FriChallenges, pre, caps, &proof, ch.FriChallenges.FriQueryIndices[c.R], uint64(1)<<nLog, nLog, &proof.QueryRoundProofs[c.R])
+	return nil
+}
+
+func c13Round(req c13Req, resp *drv.Response, rng *rand.Rand) error {
+	for _, instName := range []string{"testdata", "random"} {
+		l := data.Load(data.ByName(instName), 2)
+		for _, what := range []string{"none", "reduced0", "reduced1", "beta0", "betalast", "final0", "alpha"} {
+			for _, limb := range []int{0, 1} {
+				for _, d := range []int64{1, int64(2 + rng.Intn(1000000))} {
+					if what == "none" && (limb == 1 || d != 1) {
+						continue
+					}
+					r := rng.Intn(2)
+					c := &roundCircuit{PWPI: l.PWPI, VD: l.VD, L: l, Cfg: &engine.Config{Mode: engine.Native}, What: what, Limb: limb, D: d, R: r}
+					err := hc.Solve(c, c)
+					out := hc.Outcome(err)
+					resp.Count(fmt.Sprintf("round/%s/%s/%d/%d/%d", instName, what, limb, d, r), false)
+					if what == "none" && out != "accept" {
+						resp.Violate("c13/round/honest-rejected", fmt.Sprintf("%s round %d: %s", instName, r, firstLine(err)), nil)
+					}
+					if what != "none" && out == "accept" {
+						resp.Violate(fmt.Sprintf("c13/round/accepted what=%s limb=%d", what, limb),
+							fmt.Sprintf("%s query round %d is accepted although %s was moved by %d in limb %d (an equality of the round does not hold)", instName, r, what, d, limb), map[string]any{"what": what, "limb": limb})
+					}
+					if len(resp.Samples) < 8 && what != "none" {
+						resp.Sample(map[string]any{"instance": instName, "changed": what, "limb": limb, "delta": d, "outcome": out})
+					}
+				}
+			}
+		}
 	}
 	return nil
 }
